@@ -345,17 +345,26 @@ impl<'r> Run<'r> {
         self.ctx_counts.push(k.to_string());
     }
 
-    /// After a step that returned Ok (or any step): C08 view + C09 content.
+    /// After a step that returned Ok (or any step): C08 view + C09 content. The two are judged independently:
+    /// a stale view must not hide a wrong message, nor the other way round.
     fn monitor(&mut self, pp: &ParsedPacket, what: &str) -> Option<Decoded> {
-        match check_view(pp) {
-            Err(fd) => {
-                self.findings.push(Finding { prop: fd.prop, class: fd.class, detail: format!("after {}: {}", what, fd.detail) });
+        let cls = what.trim_start().split(|c| c == '(' || c == ' ').next().unwrap_or("").to_string();
+        let view = check_view(pp);
+        if let Err(fd) = &view {
+            self.findings.push(Finding { prop: fd.prop, class: fd.class.clone(), detail: format!("after {}: {}", what, fd.detail) });
+        }
+        // C09: decode the bytes on their own
+        let decoded = pp.packet.as_ref().map(|b| refparse(b, if strict_state(b) { STRICT } else { RELAXED }));
+        match decoded {
+            None | Some(Err(_)) => {
+                self.findings.push(f(Prop::C09, format!("effect|{}|undecodable", cls), format!("after {}: the packet no longer decodes", what)));
                 None
             }
-            Ok(d) => {
+            Some(Ok(d)) => {
                 if let Some(diff) = d.msg.diff(&self.model, self.nocase, false) {
-                    let cls = what.split(|c| c == '(' || c == ' ').next().unwrap_or("");
                     self.findings.push(f(Prop::C09, format!("effect|{}", cls), format!("after {}: decoded message differs from the model: {}", what, diff)));
+                    None
+                } else if view.is_err() {
                     None
                 } else {
                     Some(d)
